@@ -25,6 +25,7 @@ use crate::server_error::ServerResponse;
 use crate::server_error::permission_denied;
 use crate::user_id::AdminId;
 use crate::utilities::required_role;
+use crate::utilities::validate_db_name;
 use agdb_api::DbAudit;
 use agdb_api::DbUserRole;
 use agdb_api::Queries;
@@ -72,6 +73,8 @@ pub(crate) async fn add(
     request: Query<DbTypeParam>,
 ) -> ServerResponse<impl IntoResponse> {
     let owner_id = server_db.user_id(&owner).await?;
+
+    validate_db_name(&db)?;
 
     if server_db
         .find_user_db_id(owner_id, &owner, &db)
@@ -279,6 +282,8 @@ pub(crate) async fn copy(
     let owner_id = server_db.user_id(&owner).await?;
     let db_type = server_db.user_db(owner_id, &owner, &db).await?.db_type;
     let new_owner_id = server_db.user_id(&request.new_owner).await?;
+
+    validate_db_name(&request.new_db)?;
 
     if server_db
         .find_user_db_id(new_owner_id, &request.new_owner, &request.new_db)
@@ -573,6 +578,9 @@ pub(crate) async fn rename(
     }
 
     let new_owner_id = server_db.user_id(&request.new_owner).await?;
+
+    validate_db_name(&request.new_db)?;
+
     if server_db
         .find_user_db_id(new_owner_id, &request.new_owner, &request.new_db)
         .await?
